@@ -59,7 +59,10 @@ pub fn judge(x: i128, k: f64, div: bool, limit: i128, got: &Result<i128, Error>)
     let lo_abs = if band.lo.abs().cmp(&band.hi.abs()) == std::cmp::Ordering::Less { band.lo.abs() } else { band.hi.abs() };
     let hi_abs = if band.lo.abs().cmp(&band.hi.abs()) == std::cmp::Ordering::Less { band.hi.abs() } else { band.lo.abs() };
     if ge_two_pow_1024(&lo_abs) {
-        return match got { Err(Error::NumericOverflow) => Ok("infinite_result"), _ => Err("Err(NumericOverflow) (result exceeds the double range)".into()) };
+        // finite operands whose real product / quotient exceeds the double range: "computed to double precision" it is
+        // an infinite result (numeric overflow); read as a real number it is "a finite result outside the interval
+        // range" (interval-range error).  The wording supports both classifications, so both are admitted.
+        return match got { Err(Error::NumericOverflow) => Ok("infinite_result"), Err(Error::IntervalOutOfRange) => Ok("finite_result_beyond_double_range"), _ => Err("Err(NumericOverflow) or Err(IntervalOutOfRange) (the finite real result exceeds the double range)".into()) };
     }
     if !le_f64_max(&hi_abs) {
         return match got { Err(Error::NumericOverflow) | Err(Error::IntervalOutOfRange) => Ok("at_double_range_edge"), _ => Err("Err(NumericOverflow) or Err(IntervalOutOfRange)".into()) };
